@@ -480,7 +480,7 @@ func VerifyGrid(path string) {
 func listenRetry() (net.Listener, error) {
 	var l net.Listener
 	var err error
-	for i := 0; i < 100; i++ {
+	for i := 0; i < 1500; i++ { // up to 150 s: longer than TIME_WAIT
 		if l, err = net.Listen("tcp", "127.0.0.1:0"); err == nil {
 			return l, nil
 		}
